@@ -90,7 +90,7 @@ def check_invariant(res, case, sk, cfg, where):
                         dict(case, at=where, path=p, value=F.enc_val(v), normal=F.enc_val(again)))
 
 
-def run_stream(ctx, res, prop, n_cases, oracle, ops_len=(6, 16), gen_ops=None, schema_opts=None, label="history"):
+def run_stream(ctx, res, prop, n_cases, oracle, ops_len=(6, 16), gen_ops=None, schema_opts=None, label="history", schema_gen=None):
     tmp, keypath = setup(ctx)
     rng = ctx.rng
     cwd = os.getcwd()
@@ -98,7 +98,7 @@ def run_stream(ctx, res, prop, n_cases, oracle, ops_len=(6, 16), gen_ops=None, s
     reqs, pend = [], []
     try:
         for i in range(n_cases):
-            sk = C.gen_schema(rng, tmp, keypath, opts=schema_opts)
+            sk = schema_gen(rng, tmp, keypath) if schema_gen else C.gen_schema(rng, tmp, keypath, opts=schema_opts)
             ops = (gen_ops or H.gen_ops)(rng, sk, tmp, rng.randint(*ops_len))
             case = {"stream": label, "schema": sk, "ops": ops}
             impl, live = H.run_impl(sk, ops, tmp, keypath, tape=tape)
